@@ -205,6 +205,10 @@ impl Command {
             }
         }
 
+        if tokens_final.is_empty() {
+            return Err(String::from("syntax error: command expected"));
+        }
+
         let redirect_from = if redirects_from_type.is_empty() {
             None
         } else {
